@@ -18,10 +18,20 @@ Contents
 * out of domain: Rabin-Karp with an arbitrary finder; packed pair `find` with an arbitrary
   search needle, where exactly one possibility other than a normal return remains: the pointer
   arithmetic `end.sub(needle.len())` leaves the allocation WITHOUT a read (observation O2);
-  packed pair below `min_haystack_len` is the documented panic before any load (C14).
+  packed pair below `min_haystack_len` is the documented panic before any load (C14);
+* Two-Way forward / reverse (its search loops are safe code: checked slice indexing only; the
+  constructors call `is_suffix` / `is_prefix`, whose raw loads stay inside the needle) and the
+  substring API built on top of it - the meta searcher under every configuration (which decides
+  which raw-load code runs: vector packed pair, vector / portable prefilter, SWAR or vector
+  `memchr`, `is_equal_raw` confirmations), `memmem::find` / `rfind`, `Finder` / `FinderRev`,
+  `find_iter` / `rfind_iter` (whose sub-slices `&haystack[pos..]`, `&haystack[..pos]` start or
+  end anywhere inside the haystack).
 
-Not covered here: -- TODO(two-way) Two-Way forward/reverse (safe code, slice indexing only;
-proofs in progress), the top-level `memchr`/`memmem` dispatch and the iterators (C01-C04, C06).
+Not covered here: the top-level byte-search functions and iterators (`memchr`, `memrchr`,
+`memchr_iter`, ...: C01, C02, C06, C07 - each `= .ok ..` conclusion there is a no-fault
+statement); Two-Way `find` / `rfind` called directly with a search needle that differs from the
+construction needle (safe code - in the model its loops perform checked indexing only, no raw
+load -, but no theorem is stated for that out-of-domain use).
 
 Only statements, one-line proofs from the master lemmas, non-vacuity examples and
 `#print axioms`.
@@ -36,6 +46,7 @@ import MemchrModel.Proofs.ShiftOr
 import MemchrModel.Proofs.Pair
 import MemchrModel.Proofs.PairFallback
 import MemchrModel.Proofs.PackedPair
+import MemchrModel.Proofs.PropsBridge3
 
 namespace Memchr.Props.C05
 
@@ -431,6 +442,105 @@ example : (Slice.ofMem ⟨1, 64, #[97, 98, 97]⟩).Valid ∧
   ⟨Nat.le_of_eq (Nat.zero_add _), Nat.le_of_eq (Nat.zero_add _), by decide,
    ⟨by decide, by decide, by decide⟩, Fallback.specMemchr_ok⟩
 
+/-! ### Two-Way and the substring API (`src/arch/all/twoway.rs`, `src/memmem/*.rs`)
+
+As everywhere in this file, `run = .ok v c'` excludes every fault of the model, in particular
+`.oobRead` (a raw load outside its region), `.misaligned` (an aligned load at an unaligned
+address) and `.ptrOob`; the slices are arbitrary valid windows of arbitrary regions, so they may
+start at any alignment and end exactly at the end of their region (the "unmapped page"). -/
+
+/-- **Two-Way forward**: `twoway::Finder::new(needle)` then `find_with_prefilter(pre, haystack,
+needle)` for every valid needle and haystack and every optional prefilter whose strategy returns
+normally on the tails of the haystack (sound or not), in every prefilter state: returns normally
+- the constructor's `is_suffix` loads stay inside the needle, the search loops only index inside
+the two slices. -/
+theorem twoway_find_reads_ok (needle haystack : Slice) (pre : Option Pre) (c : Ctr)
+    (strat : Slice → M (Option Nat)) (hnv : needle.Valid) (hhv : haystack.Valid)
+    (hpre : TwoWay.PreOK strat pre)
+    (htotal : pre ≠ none → ∀ a, a ≤ haystack.len → ∀ c, ∃ r c',
+      strat (TwoWay.tailFrom haystack a) c = .ok r c') :
+    ∃ r c', (TwoWay.Finder.new needle >>= fun tw =>
+        TwoWay.Finder.findWithPrefilter tw pre haystack needle) c = .ok r c' :=
+  let ⟨r, pre', c', h, _⟩ :=
+    Bridge3.twoway_find_any_prefilter needle haystack pre c strat hnv hhv hpre htotal
+  ⟨(r, pre'), c', h⟩
+
+/-- **Two-Way reverse**: `twoway::FinderRev::new(needle).rfind(haystack, needle)` for every valid
+needle and haystack returns normally. -/
+theorem twoway_rfind_reads_ok (needle haystack : Slice) (c : Ctr) (hnv : needle.Valid)
+    (hhv : haystack.Valid) :
+    ∃ r c', (TwoWay.FinderRev.new needle >>= fun tw =>
+        TwoWay.FinderRev.rfind tw haystack needle) c = .ok r c' :=
+  let ⟨c', h, _⟩ := TwoWay.rfind_correct needle haystack c hnv hhv
+  ⟨_, c', h⟩
+
+/-- **The meta searcher under EVERY configuration** (every backend choice for the packed-pair
+searcher, the prefilter and `memchr`), prefilter setting, ranker, valid needle and haystack and
+prefilter state: `Searcher::new` and `Searcher::find` return normally - whichever vector or SWAR
+code the configuration selects, none of its loads leaves the haystack or the needle and every
+aligned load is aligned. -/
+theorem searcher_find_reads_ok (cfg : Api.Cfg) (pf : Memmem.PrefilterConfig)
+    (rank : UInt8 → UInt8) (needle hay : Slice) (hn : needle.Valid) (hh : hay.Valid)
+    (st : PrefilterState) (c : Ctr) :
+    ∃ s c1, Memmem.Searcher.new cfg pf rank needle c = .ok s c1 ∧ ∀ c2, ∃ r c3,
+      s.find cfg st hay needle c2 = .ok r c3 :=
+  let ⟨s, c1, h, hf⟩ := Memmem.C03.find_all cfg pf rank needle hay hn hh st c
+  ⟨s, c1, h, fun c2 => let ⟨st', c3, e⟩ := hf c2; ⟨(_, st'), c3, e⟩⟩
+
+/-- **The reverse meta searcher under every configuration**: `SearcherRev::new` and `rfind`
+return normally for every valid needle and haystack. -/
+theorem searcher_rfind_reads_ok (cfg : Api.Cfg) (needle hay : Slice) (hn : needle.Valid)
+    (hh : hay.Valid) (c : Ctr) :
+    ∃ s c1, Memmem.SearcherRev.new needle c = .ok s c1 ∧ ∀ c2, ∃ r c3,
+      s.rfind cfg hay needle c2 = .ok r c3 :=
+  let ⟨s, c1, h, hf⟩ := Memmem.C04.rfind_all cfg needle hay hn hh c
+  ⟨s, c1, h, fun c2 => let ⟨c3, e⟩ := hf c2; ⟨_, c3, e⟩⟩
+
+/-- **`memmem::find`, `memmem::rfind`, `Finder::new(..).find(..)`, `FinderRev::new(..).rfind(..)`**
+under every configuration, for every valid needle and haystack: all four return normally. -/
+theorem memmem_reads_ok (cfg : Api.Cfg) (needle hay : Slice) (hn : needle.Valid) (hh : hay.Valid)
+    (c : Ctr) :
+    (∃ r c', Memmem.find cfg hay needle c = .ok r c') ∧
+    (∃ r c', Memmem.rfind cfg hay needle c = .ok r c') ∧
+    (∃ r c', (Memmem.Finder.new cfg needle >>= fun f => f.find cfg hay) c = .ok r c') ∧
+    (∃ r c', (Memmem.FinderRev.new needle >>= fun f => f.rfind cfg hay) c = .ok r c') :=
+  ⟨let ⟨c', h⟩ := Memmem.C03.oneshot_all cfg needle hay hn hh c; ⟨_, c', h⟩,
+   let ⟨c', h⟩ := Memmem.C04.oneshot_all cfg needle hay hn hh c; ⟨_, c', h⟩,
+   let ⟨c', h⟩ := Memmem.C03.finder_find cfg needle hay hn hh (fun _ => Memmem.twoWayFwdOk) c
+   ⟨_, c', h⟩,
+   let ⟨c', h⟩ := Memmem.C04.finder_rfind_all cfg needle hay hn hh c; ⟨_, c', h⟩⟩
+
+/-- **`find_iter` under every operation sequence** (`next`, `size_hint`, `clone`, `into_owned`,
+any order and number; each `next` searches the sub-slice `&haystack[pos..]`, which starts
+anywhere inside the haystack - any alignment - and ends with it; after `into_owned` the needle
+lives in a fresh heap region): returns normally under every configuration. -/
+theorem find_iter_reads_ok (cfg : Api.Cfg) (b : Memmem.FinderBuilder) (rank : UInt8 → UInt8)
+    (needle hay : Slice) (hn : needle.Valid) (hh : hay.Valid) (ops : List Memmem.IterOp)
+    (h : Memmem.Heap) (c : Ctr) :
+    ∃ r c', (b.buildForwardWithRanker cfg rank needle >>= fun f =>
+      Memmem.FindIter.run cfg ops (f.findIter hay) h) c = .ok r c' :=
+  let ⟨_, _, c', e, _⟩ := Bridge3.findIter_run_all cfg b rank needle hay hn hh ops h c
+  ⟨_, c', e⟩
+
+/-- **`rfind_iter` under every operation sequence** (each `next` searches `&haystack[..pos]`,
+which ends anywhere inside the haystack): returns normally under every configuration. -/
+theorem rfind_iter_reads_ok (cfg : Api.Cfg) (needle hay : Slice) (hn : needle.Valid)
+    (hh : hay.Valid) (ops : List Memmem.IterOp) (h : Memmem.Heap) (c : Ctr) :
+    ∃ r c', (Memmem.FinderRev.new needle >>= fun f =>
+      Memmem.FindRevIter.run cfg ops (f.rfindIter hay) h) c = .ok r c' :=
+  let ⟨_, _, c', e, _⟩ := Bridge3.rfindIter_run_all cfg needle hay hn hh ops h c
+  ⟨_, c', e⟩
+
+/-- hypotheses are satisfiable: a 40-byte needle at an odd address and a 100-byte haystack that
+ends exactly at the end of its region (the slice is the whole region), a sub-slice of a larger
+region at an odd offset, no prefilter -/
+example : (Slice.ofMem ⟨1, 65, Array.replicate 40 97⟩).Valid ∧
+    (Slice.ofMem ⟨0, 4096 - 100, Array.replicate 100 97⟩).Valid ∧
+    (⟨⟨0, 4099, #[120, 120, 97, 98, 99, 120, 97, 98, 99, 120]⟩, 1, 8⟩ : Slice).Valid ∧
+    TwoWay.PreOK (fun _ => pure none) none := by
+  refine ⟨by simp [Slice.Valid, Slice.ofMem], by simp [Slice.Valid, Slice.ofMem],
+    by simp [Slice.Valid], fun p hp => by cases hp⟩
+
 end Memchr.Props.C05
 
 #print axioms Memchr.Props.C05.generic_find_reads_ok
@@ -470,3 +580,10 @@ end Memchr.Props.C05
 #print axioms Memchr.Props.C05.pair_new_no_loads
 #print axioms Memchr.Props.C05.fallback_with_pair_no_loads
 #print axioms Memchr.Props.C05.fallback_prefilter_reads_ok
+#print axioms Memchr.Props.C05.twoway_find_reads_ok
+#print axioms Memchr.Props.C05.twoway_rfind_reads_ok
+#print axioms Memchr.Props.C05.searcher_find_reads_ok
+#print axioms Memchr.Props.C05.searcher_rfind_reads_ok
+#print axioms Memchr.Props.C05.memmem_reads_ok
+#print axioms Memchr.Props.C05.find_iter_reads_ok
+#print axioms Memchr.Props.C05.rfind_iter_reads_ok
